@@ -72,6 +72,41 @@ theorem C10_uris_recorded (eb : Nat) (s s' : State) (u p : Bytes) (h : addSlot e
   subst hs1
   exact ⟨rfl, by simpa using hc⟩
 
+/-- **Merge.** The file written by `cache_create merge` satisfies the property for the concatenation, in order, of the
+slots of its input files (as loaded: empty-key padding entries dropped): one map, every slot exactly once, 4-byte
+lengths, erase-block alignment re-established for the *new* erase-block size. -/
+theorem C10_merge (eb : Nat) (files : List Bytes) (out : Bytes) (h : merge eb files = .ok out)
+    (hne : files.flatMap filePairs ≠ []) (hs : ∀ e ∈ files.flatMap filePairs, e.1.length < 2 ^ 64) :
+    check eb (files.flatMap filePairs) out = true := by
+  obtain ⟨_, hfp⟩ := merge_eq_fromPayloads eb files out h
+  refine C10_from_payloads eb _ out hfp hne (fun e he => ⟨?_, hs e he⟩)
+  obtain ⟨f, _, hef⟩ := List.mem_flatMap.mp he
+  have := (List.mem_filter.mp hef).2
+  simpa using this
+
+/-- **Merge preserves every slot of every input.** If each input file satisfies the property for its own slot list
+(e.g. it was written by `from_payloads`, theorem `C10_from_payloads`, with any erase-block size of its own), the merged
+file satisfies it for the concatenation of those lists. -/
+theorem C10_merge_preserves (eb : Nat) (inputs : List (Nat × List (Bytes × Bytes) × Bytes)) (out : Bytes)
+    (hin : ∀ i ∈ inputs, check i.1 i.2.1 i.2.2 = true ∧ (i.2.1.map (·.1)).Nodup)
+    (h : merge eb (inputs.map (·.2.2)) = .ok out)
+    (hne : inputs.flatMap (·.2.1) ≠ []) (hs : ∀ e ∈ inputs.flatMap (·.2.1), e.1.length < 2 ^ 64) :
+    check eb (inputs.flatMap (·.2.1)) out = true := by
+  have heq : (inputs.map (·.2.2)).flatMap filePairs = inputs.flatMap (·.2.1) := by
+    clear h hne hs
+    induction inputs with
+    | nil => rfl
+    | cons i rest ih =>
+      have hi := hin i (by simp)
+      simp only [List.map_cons, List.flatMap_cons]
+      rw [filePairs_of_check i.1 i.2.1 i.2.2 hi.1 hi.2, ih (fun j hj => hin j (by simp [hj]))]
+  have := C10_merge eb (inputs.map (·.2.2)) out h (by rw [heq]; exact hne) (by rw [heq]; exact hs)
+  rwa [heq] at this
+
+/-- reading back: what `check` accepts is loaded to exactly the expected pairs -/
+theorem C10_read_back (eb : Nat) (slots : List (Bytes × Bytes)) (out : Bytes) (h : check eb slots out = true)
+    (hnd : (slots.map (·.1)).Nodup) : filePairs out = slots := filePairs_of_check eb slots out h hnd
+
 /-- non-vacuity: a concrete two-slot cache with eb = 8 is produced and checks. -/
 example : (fromPayloads 8 [([0x23, 0x61], [1, 2]), ([0x23, 0x62], [])]).toOption.map (check 8 [([0x23, 0x61], [1, 2]), ([0x23, 0x62], [])]) = some true := by
   decide
